@@ -13,8 +13,32 @@ set_option linter.unusedSectionVars false
 macro "t4_unfold" : tactic =>
   `(tactic| simp only [gen_simp,
       -- storage lists, paddings, masks
-      rows66, rows99, rows69, rows96, pad2_66, pad1_66, pad2_99, pad1_99, pad2_69, pad1_69, pad2_96, pad1_96,
-      pad2_6, pad1_6, pad2_9, pad1_9, rv, rm, mS2, mS1, mT2, mT1,
+      rows66, rows99, rows69, rows96, pad2_66_eq, pad1_66_eq, pad2_99_eq, pad1_99_eq, pad2_69_eq, pad1_69_eq, pad2_96_eq, pad1_96_eq,
+      pad2_6_eq, pad1_6_eq, pad2_9_eq, pad1_9_eq, rv, rm, mS2, mS1, mT2, mT1,
+      T2.tens, T2.st, T4.stoST, T4.stoTT, T4.stoTS, T4.stoS2T,
+      T4.ofST, T4.ofTT, T4.ofTS, T4.ofS2T, T2.ofTens, T2.ofSt, T2.ofM3, T2.plane,
+      vecOf, matOf, List.getD_cons_zero, List.getD_cons_succ, Fin.val_zero, Fin.val_one, Fin.val_two,
+      Fin.isValue, Fin.val_ofNat, Fin.coe_ofNat_eq_mod, Nat.reduceMod, Nat.reduceMul, Nat.reduceAdd,
+      zero_mul, zero_add, one_mul,
+      -- index notation
+      T4.app, T4.appL, T4.comp, T4.transpose, T4.pushForward, T4.symL, T4.symR, T4.lin,
+      T4.id, T4.transp, T4.idS, T4.IxI, T4.J, T4.KS, T4.KT, T4.M, T4.rot, T4.tpld, T4.tprd, T4.dCdF, T4.dBdF,
+      T2.one, T2.mul, T2.transpose, T2.trace, T2.ddot, T2.dyad, sum3, delta,
+      T4.comps, pairs3, pairs2, pairs1, List.flatMap_cons, List.flatMap_nil, List.map_cons, List.map_nil,
+      List.cons_append, List.nil_append, List.append_nil,
+      vi, ti, pS1, pS2, pT1, pT2, w, iw, w2, iw2, shear,
+      -- explicit 3×3 matrices (Common/M3)
+      M3.mandel3, M3.mandel2, M3.mandel1, M3.ofMandel, M3.tens3, M3.tens2, M3.tens1,
+      M3.ofTens, M3.sym, M3.diag, M3.mul_def, M3.mul, M3.one_def, M3.one, M3.add_def, M3.add, M3.sub_def, M3.sub,
+      M3.smul_def, M3.smul, M3.transpose, M3.plane, M3.planeRot, M3.rowMajor, M3.outer, M3.trace, M3.det, M3.frob, M3.mk.injEq,
+      List.cons.injEq, and_true, true_and])
+
+/-- same, also unfolding the `let`-bound variables of the context -/
+macro "t4_unfold_zd" : tactic =>
+  `(tactic| simp (config := { zetaDelta := true }) only [gen_simp,
+      -- storage lists, paddings, masks
+      rows66, rows99, rows69, rows96, pad2_66_eq, pad1_66_eq, pad2_99_eq, pad1_99_eq, pad2_69_eq, pad1_69_eq, pad2_96_eq, pad1_96_eq,
+      pad2_6_eq, pad1_6_eq, pad2_9_eq, pad1_9_eq, rv, rm, mS2, mS1, mT2, mT1,
       T2.tens, T2.st, T4.stoST, T4.stoTT, T4.stoTS, T4.stoS2T,
       T4.ofST, T4.ofTT, T4.ofTS, T4.ofS2T, T2.ofTens, T2.ofSt, T2.ofM3, T2.plane,
       vecOf, matOf, List.getD_cons_zero, List.getD_cons_succ, Fin.val_zero, Fin.val_one, Fin.val_two,
@@ -47,6 +71,12 @@ both sides are the same operations in the same order -/
 macro "t4_same" : tactic =>
   `(tactic| (
       (try t4_unfold)
+      repeat' apply And.intro
+      all_goals (first | trivial | rfl | ring1)))
+
+macro "t4_same_zd" : tactic =>
+  `(tactic| (
+      (try t4_unfold_zd)
       repeat' apply And.intro
       all_goals (first | trivial | rfl | ring1)))
 
